@@ -1,0 +1,20 @@
+//go:build verif
+
+package outbox
+
+import (
+	"context"
+
+	"github.com/jdillenkofer/pithos/internal/storage/metadatapart/partstore"
+)
+
+// VerifProcessOnce runs one pass of the outbox worker (maybeProcessOutboxEntries)
+// of a store created by New, without starting its background loop.
+func VerifProcessOnce(ctx context.Context, ps partstore.PartStore) {
+	ps.(*outboxPartStore).maybeProcessOutboxEntries(ctx)
+}
+
+// VerifClaimOwner returns the claim owner identity of a store created by New.
+func VerifClaimOwner(ps partstore.PartStore) string {
+	return ps.(*outboxPartStore).claimOwner
+}
